@@ -36,6 +36,44 @@ def lit(v):
     return "%d" % v if v <= (1 << 63) - 1 else "%d_u64" % v
 
 
+# where a constant is converted to an integral type (the whole construct is printed on one line)
+SINKS = ["decl", "assign", "return", "field", "arr", "param", "overload", "facultative", "concept", "recinit",
+         "method", "cparam", "autoc"]
+CONCEPT_SINKS = ("overload", "facultative", "concept")     # parameter typed by a concept that suggests the type
+# how the constant is written
+SOURCES = ["lit", "comptime", "fold", "enum", "floatint", "frac"]
+
+
+def conv_source(kind, v):
+    """-> (declarations, expression) for the compile-time constant v"""
+    if kind == "comptime":
+        return "local K <comptime> = %s " % lit(v), "K"
+    if kind == "fold" and abs(v) < (1 << 62):
+        a = v // 2
+        return "", "(%s + %s)" % (lit(a), lit(v - a))
+    if kind == "enum" and -(1 << 63) <= v < (1 << 63):
+        return "local E = @enum(int64){A = %s} " % lit(v), "E.A"
+    if kind == "floatint" and abs(v) < (1 << 52):
+        return "", ("%d.0" % v if v >= 0 else "(-%d.0)" % -v)
+    return "", lit(v)
+
+
+def conv_sink(kind, T, pre, e):
+    if kind == "assign": return "do %slocal c: %s = 0 c = %s end" % (pre, T, e)
+    if kind == "return": return "do %slocal function zk(): %s return %s end zk() end" % (pre, T, e)
+    if kind == "field": return "do %slocal R = @record{f: %s} local r: R = {f = %s} end" % (pre, T, e)
+    if kind == "arr": return "do %slocal a: [2]%s = {0, %s} end" % (pre, T, e)
+    if kind == "param": return "do %slocal function zk(x: %s) end zk(%s) end" % (pre, T, e)
+    if kind == "overload": return "do %slocal function zk(x: overload(%s, boolean)) end zk(%s) end" % (pre, T, e)
+    if kind == "facultative": return "do %slocal function zk(x: facultative(%s)) end zk(%s) end" % (pre, T, e)
+    if kind == "concept": return "do %slocal zc = #[concept(function(x) return primtypes.%s end)]# local function zk(x: zc) end zk(%s) end" % (pre, T, e)
+    if kind == "recinit": return "do %slocal R = @record{f: %s} local r = R{f = %s} end" % (pre, T, e)
+    if kind == "method": return "do %slocal R = @record{} function R.zm(x: %s) end R.zm(%s) end" % (pre, T, e)
+    if kind == "cparam": return "do %slocal function zk(x: %s <comptime>) end zk(%s) end" % (pre, T, e)
+    if kind == "autoc": return "do %slocal function zk(x: auto <comptime>) local c: %s = x end zk(%s) end" % (pre, T, e)
+    return "do %slocal c: %s = %s; end" % (pre, T, e)
+
+
 LATTICE = sorted({0, 1, 2, 3, 4, 5, 7, 8, 9, 127, 128, 255, 256, 32767, 32768, 65535, 65536,
                   (1 << 31) - 1, 1 << 31, (1 << 31) + 1, (1 << 32) - 1, 1 << 32, (1 << 32) + 1,
                   (1 << 63) - 1, 1 << 63, (1 << 63) + 1, (1 << 64) - 2, (1 << 64) - 1,
@@ -148,8 +186,19 @@ class Printer:
             ln = self.emit(ind, "do local a: [%d]integer; sink(a[%s]) end" % (s[1], lit(s[2])))
             out += [str(ln), "X", hexz(s[1]), hexz(s[2])]
         elif t == 'conv':
-            ln = self.emit(ind, "do local c: %s = %s; end" % (self.type_names[s[1]], lit(s[2])))
-            out += [str(ln), "V", str(s[1]), hexz(s[2])]
+            sink = s[3] if len(s) > 3 else "decl"
+            source = s[4] if len(s) > 4 else "lit"
+            T = self.type_names[s[1]]
+            if source == "frac":
+                m = abs(s[2]) % 100000            # any fractional constant: representable in no integral type
+                pre, e = "", ("%d.5" % m if s[2] >= 0 else "(-%d.5)" % m)
+            else:
+                pre, e = conv_source(source, s[2])
+            ln = self.emit(ind, conv_sink(sink, T, pre, e))
+            if source == "frac":
+                out += [str(ln), "VF", str(s[1])]
+            else:
+                out += [str(ln), "V", str(s[1]), hexz(s[2]), "1" if sink in CONCEPT_SINKS else "0"]
         else:
             raise ValueError(t)
 
@@ -238,6 +287,7 @@ def classify(msg):
     if "cannot assign a constant variable" in m: return "constassign"
     if "expected at most" in m and "arguments" in m: return "arity"
     if "out of range" in m: return "range"
+    if "is fractional" in m: return "range"
     if "out of bounds" in m or "cannot index negative" in m: return "index"
     if "but got nil" in m: return "nilarg"
     if "is already used in another case" in m: return "dupcase"
@@ -373,7 +423,7 @@ class Gen:
         elif u < 0.75: v = r.choice([lo_ - 1, hi_ + 1, -1])
         else: v = r.choice(LATTICE)
         v = max(-(1 << 63), min((1 << 64) - 1, v))
-        return ('conv', t, v)
+        return ('conv', t, v, r.choice(SINKS), r.choice(SOURCES))
 
     def nest(self, cx):
         r = self.rng
@@ -492,7 +542,8 @@ def targeted(rng, ntypes=1):
         [('local', 4, 2), ('func', 101, [], [('func', 102, [], [('use', 4)])])],
     ]
     consts = [[('index', ln, k)] for ln in (1, 4, 256) for k in LATTICE] + \
-             [[('conv', t, v)] for t in range(ntypes) for v in LATTICE]
+             [[('conv', t, v, sk, sr)] for t in range(ntypes) for v in LATTICE[::3] for sk in SINKS for sr in SOURCES[:3]] + \
+             [[('conv', t, v, sk, sr)] for t in range(ntypes) for v in (0, 1, 200, 300, -1, 70000) for sk in SINKS for sr in SOURCES]
     fam = r.choice(["flow", "flow", "labels", "labels", "names", "consts", "consts"])
     if fam == "flow": core = r.choice(flow)
     elif fam == "labels": core = r.choice(labels)
